@@ -128,28 +128,76 @@ def check_program(chk, scratch, prog, tier, budget, san=False):
     return nev
 
 
+def _wide(chk):
+    """Values of virtual fields at 64-bit scale (the view programs above stay below 2^30 because TLC's integers are 32-bit):
+    accepted modules of BoundsGen's wide family (UInt/Int:31..64 leaves, landmark constants around 2^31, 2^32, 2^63, 2^64) are
+    read through the generated C++ at landmark environments; TLC (WideEval.tla, BigInt) decides Ok() and the value."""
+    from . import c05, bounds_pool, bounds_cpp
+    quick = chk.tier == "quick"
+    ncase, procs = (500, 4) if quick else (6000, 12)
+    with Scratch("c01w") as sc:
+        jobs = [(lambda k=k: c05._gen(sc, "wide%d" % k, dict(Family='"wide"', Exhaustive="FALSE", MaxDepth=3, MaxMag=0, NVars=3, FullConsts="FALSE"),
+                                      -(-ncase // procs), chk.seed * 1000 + 300 + k)) for k in range(procs)]
+        cases, defs, seen = [], None, set()
+        for name, res, d, cs in run_parallel(jobs, nproc=procs):
+            chk.add_tlc(res, part="BoundsGen-wide")
+            defs = defs or d
+            for c in cs:
+                key = repr((c["vars"], c["e"]))
+                if key not in seen:
+                    seen.add(key)
+                    c["id"] = len(cases)
+                    cases.append(c)
+        recs = bounds_pool.compile_cases(cases, defs, nproc=max(2, NCPU // 2))
+        acc = [r for r in recs if r["status"] == "accepted" and r["pos"] == "let"]
+        by_id = {r["id"]: r for r in acc}
+        n_env = 6 if quick else 12
+        wcases, wfail = bounds_cpp.evaluate(sc, acc, defs, n_env=n_env, nproc=max(2, NCPU // 2))
+        for status, detail, ids in wfail:
+            chk.violation("wideval:%s" % status.lower(), "driver over the generated headers of accepted wide modules %s: %s\n%s" % (
+                ids[:5], status, str(detail)[-2000:]), {"ids": ids, "emb": [by_id[i]["emb"] for i in ids[:3] if i in by_id]})
+        n = 0
+        if wcases:
+            shards = [wcases[k::4] for k in range(4) if wcases[k::4]]
+            fails = []
+            for res, summ, fl in run_parallel([(lambda k=k, part=part: c05._check_wideval(sc, "we%d" % k, part)) for k, part in enumerate(shards)], nproc=4):
+                chk.add_tlc(res, part="WideEval")
+                n += summ["evals"]
+                fails.extend(fl)
+            for fid in sorted({f["id"] for f in fails}):
+                c05._wideval_report(chk, sc, by_id[fid], defs, n_env, [f for f in fails if f["id"] == fid], "c%d" % fid)
+        chk.extra["wide_values"] = {"generated": len(cases), "accepted_and_driven": len(wcases), "reads_judged": n}
+    return n
+
+
 def run(chk, only=None):
     tier = chk.tier
     progs = view_catalog.catalog()
     budget = 1500 if tier == "quick" else 20000
     total = 0
     with Scratch("c01") as sc:
+        if only is not None and "enum" not in only:
+            progs = []
         gen, gres = view_run.generated_programs(sc, 14 if tier == "quick" else 300, chk.seed + 1, 5 if tier == "quick" else 6, 2)
         chk.add_tlc(gres, part="ProgGen")
         chk.extra["generated_programs"] = len(gen)
-        progs = progs + gen
+        progs = progs + (gen if only is None or "enum" in only else [])
         def one(p):
             return check_program(chk, sc, p, tier, budget)
         # compile (python, in-process) is serial inside check_program; builds/TLC run in threads
         for n in run_parallel([(lambda p=p: one(p)) for p in progs], nproc=max(2, NCPU // 4)):
             total += n
-    chk.traces = total
-    chk.evaluations = total
-    chk.nontrivial_count = total
+    nwide = 0
+    if only is None or "wide" in only:
+        nwide = _wide(chk)
+    chk.traces = total + nwide
+    chk.evaluations = total + nwide
+    chk.nontrivial_count = total + nwide
     chk.rule = ("every byte string over a per-program alphabet (constants the program mentions + edge bytes) up to MaxSizeInBytes+2, "
                 "for every struct and parameter sample of each catalogue/generated program; each is one Arrive event whose recorded "
                 "observation vector TLC compares with View!Obs and checks PrefixMonotone against its parent prefix")
-    chk.sample({"program": progs[0].name, "emb": view_prog.render(progs[0])})
-    chk.sample({"program": progs[-1].name, "emb": view_prog.render(progs[-1])})
-    chk.assumptions += ["integers in view programs < 2^30 (field widths <= 24 bits); wide scalars are C02's job",
+    if progs:
+        chk.sample({"program": progs[0].name, "emb": view_prog.render(progs[0])})
+        chk.sample({"program": progs[-1].name, "emb": view_prog.render(progs[-1])})
+    chk.assumptions += ["integers in view programs < 2^30 (field widths <= 24 bits); wide scalars are C02's job; values of wide EXPRESSIONS: part `wide` (WideEval.tla)",
                         "g++ -O1 build of the driver; sanitizer build is C04's job"]
